@@ -221,7 +221,7 @@ fn helper_op(rng: &mut Rng, fresh: bool) -> Op {
 /// A family of related operations, shaped so that state leaking from one call to another would show.
 fn family(rng: &mut Rng, corpus: &Corpus, deep_levels: (usize, usize), out: &mut Vec<Op>) -> &'static str {
     let fresh = rng.chance(1, 4);
-    match rng.weighted(&[14, 14, 10, 8, 8, 8, 6, 6, 5, 5, 6, 3]) {
+    match rng.weighted(&[14, 14, 10, 8, 8, 8, 6, 6, 5, 5, 6, 3, 6]) {
         0 => {
             // same rule x different data (corpus rule)
             let (r, d) = rng.pick(&corpus.cases).clone();
@@ -422,6 +422,29 @@ fn family(rng: &mut Rng, corpus: &Corpus, deep_levels: (usize, usize), out: &mut
                 out.push(Op::apply(&t(&r), &dt, false));
             }
             "wide-rule-many-distinct-paths"
+        }
+        12 => {
+            // the same operands through different operators, back to back (conversion helpers that
+            // share a memo or a scratch value between operator families)
+            let tricky: &[&str] = &["3px", "1e", " 3", "1.2.3", "inf", "0x10", "12abc", ".5.", "+5", "1,2", "-", "1e3", "١"];
+            let pick = |rng: &mut Rng| -> Value {
+                match rng.below(4) {
+                    0 => json!(*rng.pick(tricky)),
+                    1 => json!([1, 2]),
+                    2 => gen::string_atom(rng),
+                    _ => gen::atom(rng),
+                }
+            };
+            let a = pick(rng);
+            let b = pick(rng);
+            let ops: &[&str] = &["+", "*", "-", "/", "%", "<", "<=", ">", ">=", "==", "!=", "===", "max", "min", "cat", "in", "merge", "and", "or"];
+            let d = t(&gen::data(rng, 1));
+            for _ in 0..rng.range(3, 6) {
+                let op = *rng.pick(ops);
+                let r = if rng.chance(1, 4) { json!({ op: [b.clone(), a.clone()] }) } else { json!({ op: [a.clone(), b.clone()] }) };
+                out.push(Op::apply(&t(&r), &d, rng.chance(1, 4)));
+            }
+            "same-operands-different-operators"
         }
         _ => {
             // structurally equal values at distinct addresses: same texts, one shared, one fresh
